@@ -51,6 +51,10 @@ def unrule(anchor):
     return ("unrule", anchor)
 
 
+def as_str(op):
+    return ("as_str", op)
+
+
 REOPEN = ("reopen",)
 OBS = ("obs",)
 
